@@ -110,12 +110,14 @@ class _ShmSink(RawIOBase):
     requirements.
     """
 
-    def __init__(self, buf: memoryview, start: int) -> None:
-        """Initialize targeting *buf* starting at byte offset *start*."""
+    def __init__(self, buf: memoryview, start: int, limit: int | None = None) -> None:
+        """Initialize targeting *buf* from byte offset *start* up to (excluding) *limit*."""
         super().__init__()
         self._buf = buf
         self._pos = start
         self._start = start
+        self._limit = limit
+        self.overflowed = False
 
     def write(self, data: bytes | bytearray | memoryview | pa.Buffer) -> int:  # type: ignore[override]  # ty: ignore[invalid-method-override]
         """Write *data* into the shared memory region."""
@@ -126,6 +128,11 @@ class _ShmSink(RawIOBase):
         else:
             mv = memoryview(data).cast("B") if data.format != "B" else data
         n = len(mv)
+        if self._limit is not None and self._pos + n > self._limit:
+            # Never write past the region reserved for this sink: the bytes
+            # beyond it belong to another live allocation.
+            self.overflowed = True
+            raise ValueError("IPC stream does not fit the shared-memory region reserved for it")
         self._buf[self._pos : self._pos + n] = mv
         self._pos += n
         return n
@@ -436,10 +443,29 @@ class ShmSegment:
             offset = self._allocator.allocate(estimated)
             if offset is None:
                 return None
-            sink = _ShmSink(shm_buf, offset)
-            writer = new_ipc_stream(sink, batch.schema)
-            writer.write_batch(batch)
-            writer.close()
+            sink = _ShmSink(shm_buf, offset, offset + estimated)
+            try:
+                writer = new_ipc_stream(sink, batch.schema)
+                writer.write_batch(batch)
+                writer.close()
+            except Exception:
+                self._allocator.free(offset)
+                if not sink.overflowed:
+                    raise
+                # The size estimate only budgets _STREAM_OVERHEAD for the
+                # schema message and counts no dictionary messages, so a
+                # schema with many fields / large metadata, or dictionaries
+                # nested inside list/struct columns, can exceed it.  Serialize
+                # to a buffer and allocate exactly what the stream needs.
+                out = pa.BufferOutputStream()
+                with new_ipc_stream(out, batch.schema) as exact_writer:
+                    exact_writer.write_batch(batch)
+                data = out.getvalue()
+                offset = self._allocator.allocate(data.size)
+                if offset is None:
+                    return None
+                shm_buf[offset : offset + data.size] = memoryview(data).cast("B")
+                return offset, data.size
             return offset, sink.bytes_written
 
         # Dict path: serialize to buffer, then copy
